@@ -363,6 +363,9 @@ def attribute(ur, unit_files_prefix=''):
         for s in spans:
             if s.get('is_primary'):
                 where = '%s:%d' % (s['file_name'], s['line_start']); break
+        if fn and fn in fnprops and where:
+            # line numbers of the spliced text differ from the repository's: name the function's own position as well
+            where = '%s in the spliced text; fn %s starts at %s:%s of the repository' % (where, fn, fnprops[fn].get('file', '?'), fnprops[fn].get('line', '?'))
         if obname is None and fn:
             obname = '%s#implicit(%s)' % (fn, msg)
         out.append({'kind': kind, 'fn': fn, 'ob': obname, 'props': sorted(props), 'message': msg, 'where': where,
